@@ -693,11 +693,52 @@ class StateAnalysis:
         key_side = self.varying(r) - {("attr", attr)} - {("attr", a) for a in co_written}
         missing = {d for d in dep if d not in key_side}
         if cache_side and not missing:
+            lossy = self._lossy_key(f, iff, attr)
+            if lossy:
+                return False, lossy
             return True, "compares key and cache"
         if cache_side:
             return False, f"does not cover {sorted(x[1] for x in missing)}"
         others = sorted(x[1] for x in r if x[0] == "attr")
         return False, f"compares the key with {others or 'nothing'} and never with the cached value"
+
+    LOSSY_FACETS = ("size", "ndim", "nbytes", "dtype", "itemsize")
+
+    def _lossy_key(self, f, iff, attr):
+        """A key that looks at the data only through a projection of its shape (`.size`, `.ndim`, `len()`, ...) does not determine a value
+        computed from `.shape`: two inputs with equal size and different shapes share the cache entry.  Returns the reason, or None when the
+        key reads the data in any other way (then the coarser root comparison stands)."""
+        from .flow import expand
+
+        fi = self.info(f)
+        test = expand(f.node, iff.test)
+        local_names = {a.arg for a in f.node.args.posonlyargs + f.node.args.args + f.node.args.kwonlyargs} - {fi.selfname}
+        local_names |= {n.id for n in ast.walk(f.node) if isinstance(n, ast.Name) and isinstance(n.ctx, ast.Store)}
+        covered, facets = set(), set()
+        for n in ast.walk(test):
+            if isinstance(n, ast.Attribute) and n.attr in self.LOSSY_FACETS and not self_attr(n, fi.selfname):
+                facets.add("." + n.attr)
+                covered |= {id(x) for x in ast.walk(n.value)}
+            elif isinstance(n, ast.Call) and isinstance(n.func, ast.Name) and n.func.id == "len" and n.args:
+                facets.add("len()")
+                covered |= {id(x) for x in ast.walk(n.args[0])}
+        if not facets:
+            return None
+        for n in ast.walk(test):
+            if isinstance(n, ast.Name) and isinstance(n.ctx, ast.Load) and n.id in local_names and id(n) not in covered:
+                return None  # the key also reads the data directly
+        # what the stored value is computed from, under this guard
+        uses_shape = []
+        for st in ast.walk(iff):
+            if isinstance(st, ast.Assign) and attr in self._stmt_attr_binds(st, fi.selfname):
+                val = expand(f.node, st.value)
+                for n in ast.walk(val):
+                    if isinstance(n, ast.Attribute) and n.attr == "shape" and not self_attr(n, fi.selfname):
+                        uses_shape.append(n)
+        if uses_shape and ".shape" not in facets:
+            return (f"the key reads the data only through {sorted(facets)} while the stored value is computed from its `.shape`: inputs of equal "
+                    f"{sorted(facets)[0]} and different shape share the entry")
+        return None
 
     @staticmethod
     def _siblings(stmt):
